@@ -272,6 +272,8 @@ def _feed(obj, *traces):
     try:
         obj.addTraces(*traces)
         return True
+    except _Timeout:
+        raise
     except Exception:
         return False
 
@@ -354,16 +356,46 @@ def run_swaps(case):
         before = H.snapshot(t.getRoot())
         case["impl"] = M.Compute.numSwaps(t, depth, radix, case["lat"])
         case["side"] = {"tensor_unchanged": H.snapshot(t.getRoot()) == before}
+    except _Timeout:
+        raise
     except Exception as ex:
         case["impl"] = "ERR"
         case["implerr"] = H.err_class(ex)
     return case
 
 
+class _Timeout(Exception):
+    pass
+
+
+def _alarm(signum, frame):
+    raise _Timeout()
+
+
 def run(case):
-    if case["kind"] == "swaps":
-        return run_swaps(case)
-    return run_and(case)
+    """a changed implementation may not terminate (e.g. a merge round that does not shrink the
+    list of lists): every case runs under a 10 s alarm and a timeout is an observation (ERR)"""
+    import signal
+    old = signal.signal(signal.SIGALRM, _alarm)
+    signal.setitimer(signal.ITIMER_REAL, 10.0)
+    try:
+        if case["kind"] == "swaps":
+            return run_swaps(case)
+        return run_and(case)
+    except _Timeout:
+        Metrics = H.ft().Metrics
+        if Metrics.isCollecting():
+            Metrics.traces = {}
+            Metrics.endCollect()
+        case["implerr"] = "ERR:Timeout"
+        if case["kind"] == "swaps":
+            case["impl"] = "ERR"
+        else:
+            case["impl"] = {"batches": [], "tf": "ERR", "sa": "ERR", "lf0": "ERR", "lf1": "ERR", "lf": "ERR"}
+        return case
+    finally:
+        signal.setitimer(signal.ITIMER_REAL, 0)
+        signal.signal(signal.SIGALRM, old)
 
 
 # ---------------------------------------------------------------------------------------
@@ -394,7 +426,9 @@ def signature(case, verdict, failed):
                     return "and:" + x[len("dirty:"):]
         if kind == "swaps" and "hidden-empty" in t:
             return "swaps:all-default-subfiber-not-merged"
-    return f"{kind}:{'/'.join(sorted(failed))}:{verdict.get('why', '')[:80]}"
+    why = verdict.get("why", "")
+    part = why[why.find("specfail="):] if "specfail=" in why else ""
+    return f"{kind}:{'/'.join(sorted(failed))}:{part}"
 
 
 def _tree_shrinks(t):
